@@ -39,7 +39,7 @@ def far_from(p, samples, margin):
 
 def candidate_points(rng, m, n, margin=0.09):
     R = m["info"]["outer_radius"]; c = m["info"].get("centre", (0, 0, 0)); samples = tri_samples(m)
-    out = []; tries = 0
+    out = [p for p in extreme_points(m, margin) if far_from(p, samples, margin * R)]; n += len(out); tries = 0
     while len(out) < n and tries < 40 * n:
         tries += 1
         d = models.random_unit(rng); r = 1.35 * R * rng.random() ** (1 / 3.0)
@@ -48,6 +48,42 @@ def candidate_points(rng, m, n, margin=0.09):
     return out
 
 def flat(l): return [x for t in l for x in t]
+
+def solid_angle(p, a, b, c):
+    y1 = (a[0] - p[0], a[1] - p[1], a[2] - p[2]); y2 = (b[0] - p[0], b[1] - p[1], b[2] - p[2]); y3 = (c[0] - p[0], c[1] - p[1], c[2] - p[2])
+    n1 = math.sqrt(y1[0] ** 2 + y1[1] ** 2 + y1[2] ** 2); n2 = math.sqrt(y2[0] ** 2 + y2[1] ** 2 + y2[2] ** 2); n3 = math.sqrt(y3[0] ** 2 + y3[1] ** 2 + y3[2] ** 2)
+    det = y1[0] * (y2[1] * y3[2] - y2[2] * y3[1]) - y1[1] * (y2[0] * y3[2] - y2[2] * y3[0]) + y1[2] * (y2[0] * y3[1] - y2[1] * y3[0])
+    d12 = y1[0] * y2[0] + y1[1] * y2[1] + y1[2] * y2[2]; d23 = y2[0] * y3[0] + y2[1] * y3[1] + y2[2] * y3[2]; d31 = y3[0] * y1[0] + y3[1] * y1[1] + y3[2] * y1[2]
+    return 2 * math.atan2(det, n1 * n2 * n3 + n1 * d23 + n2 * d31 + n3 * d12)
+
+def truth_domains(m, p):
+    """the generator's own point location (independent of the library): winding number of every interface by summed solid
+    angles over its oriented meshes, then the domain definitions; returns the list of domain ids (positions in m['domains'])"""
+    meshes = {name: (vs, ts) for name, vs, ts in m["meshes"]}
+    inside = {}
+    for iname, oms in m["interfaces"]:
+        tot = 0.0
+        for sgn, mn in oms:
+            vs, ts = meshes[mn]
+            for a, b, c in ts: tot += sgn * solid_angle(p, vs[a], vs[b], vs[c])
+        inside[iname] = abs(tot) > 2 * math.pi
+    out = []
+    for k, (dname, bs) in enumerate(m["domains"]):
+        if all(inside[i] == (sgn < 0) for sgn, i in bs): out.append(k)
+    return out
+
+def extreme_points(m, margin):
+    """points just inside and just outside the extreme vertices of every mesh along +-x, +-y, +-z (the corners of the
+    bounding boxes of the compartments), pulled towards / pushed away from the mesh centroid"""
+    R = m["info"]["outer_radius"]; out = []
+    for name, vs, ts in m["meshes"]:
+        cen = tuple(sum(v[k] for v in vs) / len(vs) for k in range(3))
+        for ax in range(3):
+            for pick in (max, min):
+                v = pick(vs, key=lambda q: q[ax]); d = math.sqrt(sum((v[k] - cen[k]) ** 2 for k in range(3))) or 1.0
+                for sg in (-1.6, -3.0, +1.6):
+                    out.append(tuple(v[k] + sg * margin * R * (v[k] - cen[k]) / d for k in range(3)))
+    return out
 
 # ----------------------------------------------------------------------------------------------- harness access
 class H:
@@ -230,7 +266,7 @@ def judge(spec, res):
         spec["_threw"] = int(A is None) + int(B is None)
         if A is None or B is None:
             if (A is None) != (B is None): out.append(("star: exception", "SurfSourceMat throws for one of two source meshes that differ by one displaced vertex"))
-            else: out.append(("throws for a source surface inside a conductive domain", "SurfSourceMat throws (status %s) for a closed 12-vertex source surface that lies well inside a conductive domain of the head (before the fix 4b8856e: whenever that domain is bounded by a current-barrier mesh, e.g. a one-layer head)" % (res[0][0],)))
+            else: out.append(("throws for a source surface inside a conductive domain", "SurfSourceMat throws (status %s) for a closed 12-vertex source surface that lies well inside a conductive domain of the head (before the fix 88ce969: whenever that domain is bounded by a current-barrier mesh, e.g. a one-layer head)" % (res[0][0],)))
             return out
         spec["_nonzero"] = sum(1 for j in spec["same"] if colmax(A[j]) > 0); spec["_changed"] = sum(1 for j in spec["moved"] if not same_bits(A[j], B[j]))
         for j in spec["same"]:
@@ -310,9 +346,17 @@ def gen_model_specs(rng, h, mid, m, quick, rules=None, consts=None):
     z = cont[0][1:]; p = 0; where = []
     for _ in cand:
         k = z[p]; where.append(z[p + 1:p + 1 + k]); p += 1 + k
+    # the generator's own location of every candidate (ground truth) vs Geometry::domain / Domain::contains of the library
+    truth = [truth_domains(m, pt) for pt in cand]
+    loc = dict(checked=0, mismatches=[])
     by_dom = {}
-    for pt, w in zip(cand, where):
-        if len(w) >= 1: by_dom.setdefault(w[0], []).append((pt, w))
+    for pt, w, t in zip(cand, where, truth):
+        if len(t) != 1: continue
+        loc["checked"] += 1
+        if list(w) != t:
+            loc["mismatches"].append(dict(point=list(pt), truth=t[0], truth_name=m["domains"][t[0]][0], library=list(w),
+                                          library_name=[m["domains"][k][0] for k in w if k < len(m["domains"])]))
+        by_dom.setdefault(t[0], []).append((pt, w))
     # a batch with dipoles from every domain (conductive or not)
     used = set()
     def pick(k):
@@ -333,7 +377,8 @@ def gen_model_specs(rng, h, mid, m, quick, rules=None, consts=None):
         u = models.random_unit(rng); s = rng.choice([1.0, 1.0, 1e-3, 250.0, rng.uniform(0.1, 10)])
         return tuple(s * x for x in u)
     dips = [tuple(pt) + mom() for pt, w in batch]
-    zero_cols = [i for i, (pt, w) in enumerate(batch) if conds[w[0]] == 0.0]
+    tdom = {pt: t[0] for pt, t in zip(cand, truth) if len(t) == 1}
+    zero_cols = [i for i, (pt, w) in enumerate(batch) if conds[tdom[pt]] == 0.0]
     def reidx(n):
         L = rng.randint(1, 2 * n); return [rng.randrange(n) for _ in range(L)]
     for cfg in CFGS:
@@ -342,7 +387,9 @@ def gen_model_specs(rng, h, mid, m, quick, rules=None, consts=None):
         specs.append(dict(fn="dsm", rel="scale", mid=mid, cfg=list(cfg[:3]), dips=dips, lam=lam))
         specs.append(dict(fn="dsm", rel="add", mid=mid, cfg=list(cfg[:3]), dips=dips, q2=[mom() for _ in dips]))
         for d in sorted(by_dom):
-            inside = [tuple(pt) + mom() for pt, w in by_dom[d][:3]]
+            # the domain is named by the generator's ground truth (not by where the library puts the dipole); the dipoles
+            # include the extremes of the compartment along every axis (first entries of the candidate list)
+            inside = [tuple(pt) + mom() for pt, w in by_dom[d][:10]]
             if inside: specs.append(dict(fn="dsm", rel="named", mid=mid, cfg=list(cfg[:3]), dips=inside, dom=d))
     # internal potential: points in every domain, same relations
     pts = [pt for pt, w in pick(rng.randint(3, 8))]
@@ -351,7 +398,7 @@ def gen_model_specs(rng, h, mid, m, quick, rules=None, consts=None):
     specs.append(dict(sp, rel="scale", dips=dips, lam=[rng.choice([2.0, -0.25, 0.0, 3.0, -7.3, rng.uniform(-100, 100)]) for _ in dips]))
     specs.append(dict(sp, rel="add", dips=dips, q2=[mom() for _ in dips]))
     for d in sorted(by_dom):
-        inside = [tuple(pt) + mom() for pt, w in [x for x in by_dom[d] if x[0] not in pts][:3]]
+        inside = [tuple(pt) + mom() for pt, w in [x for x in by_dom[d] if x[0] not in pts][:10]]
         if inside and conds[d] != 0.0: specs.append(dict(sp, rel="named", dips=inside, dom=d))
     # EITSourceMat: point electrodes next to the scalp; same locality relations (columns = electrodes)
     R_ = m["info"]["outer_radius"]; c_ = m["info"].get("centre", (0, 0, 0))
@@ -421,6 +468,7 @@ def gen_model_specs(rng, h, mid, m, quick, rules=None, consts=None):
         threaded.append(dict(fn="ip", mid=mid, pts=pts, rel="locality", dips=dips, p=reidx(len(dips)), cut=rng.randint(0, len(dips)), zero_cols=zero_cols, threads=nth))
     info = dict(kind=m["info"].get("topology"), domains=ndom, size=geo_ints[0], dipoles=len(dips), zero_cond_dipoles=len(zero_cols),
                 dipoles_per_domain={str(d): len(v) for d, v in by_dom.items()})
+    info["location"] = loc
     return specs, structs, info, values, threaded
 
 def meg_specs(rng, quick):
@@ -486,6 +534,15 @@ def main(replay=None):
         elif kind == "integrator":
             mo = core.run_model([rp["model_case"]]); ho = h.run([rp["harness_case"]])
             judge_integ(ck, [(rp["model_case"], rp["harness_case"], rp.get("what", {}))], mo, ho, h)
+        elif kind == "location":
+            m = rp["model"]; m["meshes"] = [(n, [tuple(v) for v in vs], [tuple(t) for t in ts]) for n, vs, ts in m["meshes"]]
+            m["interfaces"] = [(n, [tuple(x) for x in l]) for n, l in m["interfaces"]]; m["domains"] = [(n, [tuple(x) for x in l]) for n, l in m["domains"]]
+            models.write_model(m, os.path.join(h.wd, "m%d" % rp["mid"]))
+            res = h.run([core.fcase("c08", [7, rp["mid"], 1], rp["point"])])[0]
+            t = truth_domains(m, tuple(rp["point"])); w = res[0][2:2 + res[0][1]] if res[0] and res[0][0] == 0 else None
+            if w is None or list(w) != t:
+                ck.violation("Geometry::domain(p) / Domain::contains: point located in another compartment than the one it was drawn in",
+                             "point %s: generator %s, library %s" % (rp["point"], t, w), dict(rp))
         elif kind == "structure":
             m = rp["model"]; m["meshes"] = [(n, [tuple(v) for v in vs], [tuple(t) for t in ts]) for n, vs, ts in m["meshes"]]
             models.write_model(m, os.path.join(h.wd, "m%d" % rp["mid"]))
@@ -518,14 +575,23 @@ def main(replay=None):
     # ---- S + M on generated head models
     nmodels = 6 if quick else 40
     kinds = ["nested", "nonconductive", "split", "inclusions", "nested", "nonconductive"]
-    allspecs = []; infos = []; nstruct = 0; struct_mis = 0; nspec_fail = 0; worst_add = {}
+    allspecs = []; infos = []; nstruct = 0; struct_mis = 0; nspec_fail = 0; worst_add = {}; loc_checked = 0; loc_bad = 0
     vstats = dict(cases=0, entries=0, bitwise_entries=0, agree_cases=0, worst_rel=0.0, mismatches=[])
     for mid in range(nmodels):
         kind = kinds[mid] if mid < len(kinds) else ck.rng.choice(kinds)
         m = models.random_model(ck.rng, 2 if (not quick and mid % 7 == 6) else 1, kinds=(kind,))     # thorough: some 162-vertex meshes
-        if ck.rng.random() < 0.5:   # moved / scaled heads: nothing here may depend on the frame
+        r_ = ck.rng.random()
+        if r_ < 0.25:   # moved / scaled heads: nothing here may depend on the frame
             m = models.move_model(m, models.rational_quaternion(ck.rng), (ck.rng.uniform(-1, 1), ck.rng.uniform(-1, 1), ck.rng.uniform(-1, 1)), ck.rng.choice([1.0, 0.1, 80.0]))
-            s = 1.0  # info: recompute the outer radius and centre from the meshes
+            m["info"]["frame"] = "rotated+translated+scaled"
+        elif r_ < 0.9:  # axis-aligned variety: cyclic permutation of the axes (off-centre compartments towards +y / +z), anisotropic
+                        # stretch (y extent larger than x extent and vice versa), translation along each axis and diagonally
+            perm = ck.rng.choice([(0, 1, 2), (2, 0, 1), (1, 2, 0)])
+            ax = ck.rng.choice([(1, 1, 1), (1, 1.6, 1), (1.5, 1, 1), (1, 1, 1.7), (0.7, 1.3, 1), (1.3, 0.7, 1.2)])
+            d_ = ck.rng.choice([0.0, 0.6, 2.5]); dirs = ck.rng.choice([(1, 0, 0), (0, 1, 0), (0, 0, 1), (1, 1, 1), (0, -1, 0), (-1, 0, 1), (-1, 1, 0)])
+            f_ = lambda v: tuple(ax[k] * v[perm[k]] + d_ * dirs[k] for k in range(3))
+            m = dict(m); m["meshes"] = [(n_, [f_(v) for v in vs], ts) for n_, vs, ts in m["meshes"]]
+            m["info"] = dict(m["info"], frame="perm%s stretch%s shift%s" % (perm, ax, tuple(d_ * x for x in dirs)))
         allv = [v for _, vs, _ in m["meshes"] for v in vs]
         c = tuple(sum(v[k] for v in allv) / len(allv) for k in range(3))
         m["info"]["centre"] = c; m["info"]["outer_radius"] = max(math.sqrt(sum((v[k] - c[k]) ** 2 for k in range(3))) for v in allv)
@@ -535,6 +601,13 @@ def main(replay=None):
             ck.violation("harness: geometry", "generated model %d (%s) could not be loaded by the library" % (mid, kind), dict(kind="harness", model=m), found_input=False)
             continue
         specs, structs, info, values, threaded = g; infos.append(info)
+        loc = info["location"]; loc_checked += loc["checked"]; loc_bad += len(loc["mismatches"])
+        for mm_ in loc["mismatches"][:1]:
+            ck.violation("Geometry::domain(p) / Domain::contains: point located in another compartment than the one it was drawn in",
+                         "point %s lies in domain #%d (%s) of the generated head (%s; generator's own winding-number location, at least 0.09 R from every surface) but the library reports it inside %s -- the dipole columns of DipSourceMat / DipSource2InternalPotMat then belong to the wrong compartment (%d of %d points of this head mislocated)"
+                         % (mm_["point"], mm_["truth"], mm_["truth_name"], m["info"].get("frame", "as generated"), mm_["library_name"] or "no domain", len(loc["mismatches"]), loc["checked"]),
+                         dict(kind="location", model=m, mid=mid, point=mm_["point"], truth=mm_["truth"], replay_cmd="./check C08 --replay <this file>"))
+        info["location"] = dict(checked=loc["checked"], mismatches=len(loc["mismatches"])); info["frame"] = m["info"].get("frame", "as generated")
         for nth in (2, 4):
             ts = [t for t in threaded if t["threads"] == nth]
             nspec_fail += run_specs(ck, h, ts, mdl_of, env=dict(OMP_NUM_THREADS=str(nth))); allspecs += ts
@@ -565,6 +638,7 @@ def main(replay=None):
                   samples=[json.dumps({k: v for k, v in allspecs[0].items() if k not in ("dips",)})[:300], ic[len(ic) // 2][1][:200]],
                   op_distribution=rel_dist, models=infos, integrator=istats, structure_cases=nstruct, structure_mismatches=struct_mis,
                   relation_failures=nspec_fail, traces_validated_against_impl=nstruct + len(ic) + vstats["agree_cases"],
+                  point_location=dict(points_checked=loc_checked, mislocated=loc_bad, note="every generated dipole / potential point: the library's containing domains (Domain::contains for every domain) vs the generator's own winding-number location; includes points just inside and just outside the extreme vertices of every mesh along +-x, +-y, +-z"),
                   surf_source=dict(star_cases=sum(1 for s_ in allspecs if s_["rel"] == "star"), unchanged_columns_compared=sum(len(s_["same"]) for s_ in allspecs if s_["rel"] == "star"),
                                    threw=sum(s_.get("_threw", 0) for s_ in allspecs if s_["rel"] == "star"), of_which_nonzero=sum(s_.get("_nonzero", 0) for s_ in allspecs if s_["rel"] == "star"), columns_that_did_change=sum(s_.get("_changed", 0) for s_ in allspecs if s_["rel"] == "star"),
                                    note="SurfSourceMat on a 12-vertex source surface vs the same surface with one vertex displaced: columns of the source vertices sharing no triangle with it compared bitwise (ssm_column_star); the columns of the displaced vertex and its neighbours are expected to change"),
